@@ -53,8 +53,8 @@ MODEL = ("Model.C11_apidiff", "run_C11")
 COQ_TARGETS = ["Proofs/C11_apidiff.vo"]
 RULE = ("seeded random packages (2-5 modules incl. private modules and a sub-package; functions with C10-style signatures, classes with "
         "local/imported bases and public/private/special members, attributes, re-export imports incl. chains, module imports, dangling, "
-        "external and cyclic ones, __all__ absent / subset / empty) x edit scripts of 1-3 edits from a catalogue of 22 edits applied at "
-        "random public/private locations; plus identical copies, post-load `public` flag overrides and the corpus/C11 regression packages. A case is non-trivial when the "
+        "external and cyclic ones, __all__ absent / subset / empty) x edit scripts of 1-4 edits from a catalogue of 23 edits (incl. combined base removal + member change on one class) applied at "
+        "random public/private locations, in a single package or in the facade layout (public `pkg` re-exporting from a private top-level `_pkg`); plus identical copies, post-load `public` flag overrides and the corpus/C11 regression packages. A case is non-trivial when the "
         "edit script is non-empty or aliases are present; distinct by the rendered (old, new) sources")
 TRUSTED = ["harness abstraction of loaded Griffe trees into model stores (harness/props/c11.py:Abstraction)"]
 ASSUMPTIONS = ["object identity is the object path (asserted by the abstraction on every case)",
